@@ -13,7 +13,7 @@ import (
 
 func init() {
 	PropertyText["C17"] = [2]string{
-		"Decides the discipline that makes the counters exact under any interleaving: the plain integer fields of counter/mean are touched only through sync/atomic, atomic.* typed fields only through their methods (R-ATOMIC); the cumulative total of a rate has incr as its only writer, with the same step as the window count (R-RATE-TOTAL); the per-key map is read and written under the bucket's lock and create-or-increment happens inside one critical section (R-BUCKET-LOCK); each stage worker increments its gauge once and defers the decrement immediately, with single call sites (R-GAUGE-PAIR); URLsCrawledIncr is deferred at the top of every fetch goroutine, the status-code counter is bumped with this response's code on every path to ItemArchived, SeedsFinishedIncr exactly on finish paths (R-EVENT-ONCE, R-FIN); mean = sum/count with 0 for an empty mean (R-MEAN-DEF).",
+		"Decides the discipline that makes the counters exact under any interleaving: the plain integer fields of counter/mean are touched only through sync/atomic, atomic.* typed fields only through their methods (R-ATOMIC); the cumulative total of a rate has incr as its only writer, with the same step as the window count (R-RATE-TOTAL); the per-key map is read and written under the bucket's lock and create-or-increment happens inside one critical section (R-BUCKET-LOCK); each stage worker increments its gauge once and defers the decrement immediately, with single call sites (R-GAUGE-PAIR); URLsCrawledIncr is deferred at the top of every fetch goroutine, the status-code counter is bumped with this response's code on every path to ItemArchived, SeedsFinishedIncr exactly on finish paths (R-EVENT-ONCE, R-FIN); mean = sum/count with 0 for an empty mean (R-MEAN-DEF). Every exported wrapper updates the in-process counter on every path (R-STATS-UNCONDITIONAL).",
 		"Not decided: a reader racing a writer may see count and sum from different instants (the property speaks of totals after a burst); Prometheus client internals.",
 	}
 	register(&core.Rule{ID: "R-ATOMIC", Props: []string{"C17"}, Doc: "counter.count, mean.count, mean.sum are only ever passed by address to sync/atomic functions; fields of atomic.* type are only used as method receivers (never copied, never assigned)", Run: ruleAtomic})
